@@ -238,6 +238,25 @@ Acyclic(E) ==
 
 FileEdges(P, E) == {<<FileOf(P, e[1]), FileOf(P, e[2])>> : e \in {d \in E : FileOf(P, d[1]) # FileOf(P, d[2])}}
 
+\* Names a module makes accessible to its users: its own procedures and variables plus whatever its module-level
+\* USE statements bring in (everything is public).  d bounds the recursion on (possibly cyclic) USE chains.
+RECURSIVE ExportedNames(_, _, _)
+ExportedNames(P, mn, d) ==
+  LET m == ModRec(P, mn)
+      own == Range(m.vars) \cup {pr.name : pr \in {q \in Procs(P) : q.mod = mn}}
+  IN IF d = 0 THEN own
+     ELSE own \cup UNION {IF im.only = <<>> THEN (IF im.mod \in ModNames(P) THEN ExportedNames(P, im.mod, d - 1) ELSE {})
+                                            ELSE Range(im.only) : im \in Range(m.imports)}
+BroughtIn(P, imps) ==
+  UNION {IF im.only = <<>> THEN (IF im.mod \in ModNames(P) THEN ExportedNames(P, im.mod, Cardinality(Mods(P))) ELSE {})
+                           ELSE Range(im.only) : im \in Range(imps)}
+\* Fortran: an entity declared in a scoping unit must not have the name of an entity made accessible there by USE
+\* (e.g. module m1 with `use m2` must not define a procedure that m2 also defines)
+NoUseClash(P) ==
+  /\ \A m \in Mods(P) :
+        (Range(m.vars) \cup {pr.name : pr \in {q \in Procs(P) : q.mod = m.name}}) \cap BroughtIn(P, m.imports) = {}
+  /\ \A pr \in Procs(P) : pr.name \notin BroughtIn(P, pr.imports)
+
 LegalProject(P) ==
   /\ \A m1, m2 \in Mods(P) : m1.name = m2.name => m1 = m2
   /\ \A p1, p2 \in Procs(P) : (p1.name = p2.name /\ p1.mod = p2.mod) => p1 = p2
@@ -246,6 +265,7 @@ LegalProject(P) ==
   /\ \A m \in Mods(P) : \A im \in Range(m.imports) : ImportLegal(P, im, m.name)
   /\ \A pr \in Procs(P) : \A im \in Range(pr.imports) : ImportLegal(P, im, pr.mod)
   /\ \A pr \in Procs(P) : \A c \in Range(pr.calls) : CallLegal(P, pr, c)
+  /\ NoUseClash(P)
 
 \* the scheduler traverses topologically: item graph (apart from self recursion) and the induced file
 \* graph must be acyclic (a documented limitation, not a property)
